@@ -26,3 +26,4 @@ run F15 2a0bcea C17
 run F11 837599a C02
 run F10 8970499 C10
 run F16 2e7d4b7 C08
+run F17 c031c5d C20 C12
